@@ -129,7 +129,9 @@ std::string Logic::disambiguateName(std::string const & protectedName, SRef sort
 //
 std::string Logic::protectName(std::string const & name, bool isInterpreted) const {
     assert(not name.empty());
-    if (not isInterpreted and (hasQuotableChars(name) or std::isdigit(name[0]) or isReservedWord(name))) {
+    bool const readsAsNumber =
+        std::isdigit(name[0]) or (name.size() > 1 and name[0] == '-' and std::isdigit(name[1]));
+    if (not isInterpreted and (hasQuotableChars(name) or readsAsNumber or isReservedWord(name))) {
         return '|' + name + '|';
     }
     return name;
